@@ -40,12 +40,12 @@ static gslot *s_buf, *s_dst, *s_big;
 static uint64_t call(const csym *s, uint64_t seed, uint8_t *buf, uint8_t *dst, uint64_t len)
 {
 	switch (s->kind) {
-	case K_CRC16: return ((uint16_t (*)(uint16_t, const uint8_t *, uint64_t)) s->fn)((uint16_t) seed, buf, len);
-	case K_CRC16COPY: return ((uint16_t (*)(uint16_t, uint8_t *, uint8_t *, uint64_t)) s->fn)((uint16_t) seed, dst, buf, len);
-	case K_IEEE: case K_GZIP: return ((uint32_t (*)(uint32_t, const uint8_t *, uint64_t)) s->fn)((uint32_t) seed, buf, len);
-	case K_ISCSI: return ((unsigned (*)(unsigned char *, int, unsigned)) s->fn)(buf, (int) len, (unsigned) seed);
-	case K_CRC64: return ((uint64_t (*)(uint64_t, const uint8_t *, uint64_t)) s->fn)(seed, buf, len);
-	default: return ((uint32_t (*)(uint32_t, const uint8_t *, uint64_t)) s->fn)((uint32_t) seed, buf, len);
+	case K_CRC16: return (uint16_t) V_ABI(s->fn, (uint16_t) seed, buf, len);
+	case K_CRC16COPY: return (uint16_t) V_ABI(s->fn, (uint16_t) seed, dst, buf, len);
+	case K_IEEE: case K_GZIP: return (uint32_t) V_ABI(s->fn, (uint32_t) seed, buf, len);
+	case K_ISCSI: return (unsigned) V_ABI(s->fn, buf, (int) len, (unsigned) seed);
+	case K_CRC64: return (uint64_t) V_ABI(s->fn, seed, buf, len);
+	default: return (uint32_t) V_ABI(s->fn, (uint32_t) seed, buf, len);
 	}
 }
 static uint64_t ref(const csym *s, uint64_t seed, const uint8_t *buf, uint64_t len)
